@@ -19,6 +19,8 @@ DEFAULT_OPTS = {
   "reset": True,
   "uu": False,               # explicit U(a) < U(b) between independent blocks
   "min_comb": 1,
+  "translatable": False,     # stay inside what the RTLIR type checker / translators accept
+  "no_sext_compound": False, # exclusion switch for the known finding "sext of a compound operand"
   "min_depth": 0,
   "child_bias": 0,           # extra weight for instantiating children in a step
   "ff_heavy": False,         # C07: many registers, one ff block per register, ff blocks read each other's registers
@@ -125,6 +127,15 @@ class ClassBuilder:
     return [d(st.sampled_from(["zext", "zext", "sext"])), ["sig", ref], w]
 
   def expr(self, w, env, depth=0):
+    e = self._expr(w, env, depth)
+    if self.opts["translatable"] and e[0] not in ("const", "lit") and _is_constant(e):
+      # the RTLIR type checker folds constant-only sub-expressions and re-sizes them to the minimal
+      # width of the folded value (see C10 finding); keep translatable designs clear of that
+      from vf.strategies import uvalue
+      return ["const", w, self.draw(uvalue(w))]
+    return e
+
+  def _expr(self, w, env, depth=0):
     d = self.draw
     maxd = env.get("maxd", 3)
     if depth >= maxd or d(st.integers(0, 9)) < 3 + depth:
@@ -149,13 +160,17 @@ class ClassBuilder:
             lv, cnt = d(st.sampled_from(env["lv"]))
             if cnt <= sw: return ["bit", ref, ["lv", lv]]
           iw = (sw).bit_length() - 1              # 2**iw <= sw
-          if iw >= 1 and d(st.booleans()):
+          if iw >= 1 and d(st.booleans()) and (not self.opts["translatable"] or (1 << iw) == sw):
+            # the RTLIR type checker wants exactly clog2(n) index bits: only possible without
+            # out-of-range values when n is a power of two
             return ["bit", ref, self.expr(iw, env, depth + 1)]
           return ["bit", ref, ["lit", d(st.integers(0, sw - 1))]]
     if k < 9:
       op = d(st.sampled_from(["+", "-", "*", "&", "|", "^", "+", "-", "&", "|", "^"]))
       a = self.expr(w, env, depth + 1)
       b = self.lit_or_expr(w, env, depth + 1)
+      if self.opts["translatable"] and _is_constant(a) and _is_constant(b):
+        b = self.sig_leaf(w, env)                  # constant folding would re-size a const-only expression
       if b[0] == "lit" and d(st.integers(0, 3)) == 0:
         a, b = b, a                                # reflected int operand
       return ["bin", op, a, b]
@@ -187,6 +202,13 @@ class ClassBuilder:
       return ["ifexp", self.expr(1, env, depth + 1), self.expr(w, env, depth + 1), self.expr(w, env, depth + 1)]
     return self.leaf(w, env)
 
+  def sig_leaf(self, w, env):
+    """a leaf that is certainly not a constant (falls back to a constant only if nothing is readable)"""
+    for _ in range(4):
+      e = self.leaf(w, env)
+      if not _is_constant(e): return e
+    return e
+
   def lit_or_expr(self, w, env, depth):
     d = self.draw
     if d(st.integers(0, 3)) == 0:
@@ -215,7 +237,7 @@ class ClassBuilder:
         body = [["assign_bit", ref, ["lv", lv], self.expr(1, env2, 1)]]
         if d(st.integers(0, 2)) == 0:
           stmts.append(["assign", ref, self.expr(w, env)])
-        rev = d(st.integers(0, 3)) == 0
+        rev = d(st.integers(0, 3)) == 0 and not self.opts["translatable"]
         stmts.append(["for", lv, w - 1, -1, -1, body] if rev else ["for", lv, 0, w, 1, body])
       else:
         stmts.append(["assign", ref, self.expr(w, env)])
@@ -286,24 +308,29 @@ class ClassBuilder:
     d = self.draw
     w = type_width(t)
     if t[0] == "s":
-      if d(st.booleans()) or True:
-        # whole, or per top-level field (only Bits-leaf paths and whole sub-objects)
-        if d(st.integers(0, 2)) == 0:
-          return [(mkref(name), w, t)]
-        parts = []
-        for fname, ft in t[2]:
-          if ft[0] == "l":
-            for idx in _indices(ft[1]):
-              et = ft[2]
-              parts.append((mkref(name, fld=[fname] + list(idx)), type_width(et), et))
-          else:
-            parts.append((mkref(name, fld=[fname]), type_width(ft), ft))
-        return parts
+      if d(st.integers(0, 2)) == 0 and (not self.opts["translatable"] or _flat(t)):
+        return [(mkref(name), w, t)]
+      return self._split_struct(mkref(name), t)
     if w >= 2 and d(st.integers(0, 2)) == 0:
       cuts = sorted(set(d(st.lists(st.integers(1, w - 1), min_size=1, max_size=3))))
       bounds = [0] + cuts + [w]
       return [(mkref(name, sl=[a, b]), b - a, ["b", b - a]) for a, b in zip(bounds, bounds[1:])]
     return [(mkref(name), w, t)]
+
+  def _split_struct(self, ref, t):
+    """per-field parts of a struct-typed object; nested structs that cannot be assigned as a whole in
+    translatable designs are split further"""
+    parts = []
+    for fname, ft in t[2]:
+      base = list(ref["fld"]) + [fname]
+      elems = [(base + list(idx), ft[2]) for idx in _indices(ft[1])] if ft[0] == "l" else [(base, ft)]
+      for fld, et in elems:
+        r = dict(ref); r["fld"] = fld
+        if et[0] == "s" and (self.opts["translatable"] and not _flat(et) or self.draw(st.integers(0, 3)) == 0):
+          parts.extend(self._split_struct(r, et))
+        else:
+          parts.append((r, type_width(et), et))
+    return parts
 
   def drive(self, parts, blkname_prefix="up"):
     """creates drivers for parts: connections for some, one or two comb blocks for the rest"""
@@ -411,6 +438,7 @@ class ClassBuilder:
     if o["ff"]:
       for _ in range(d(st.integers(2, 5)) if o["ff_heavy"] else d(st.integers(0, 3))):
         t = self.any_type()
+        if o["translatable"] and t[0] == "s" and not _flat(t): t = ["b", type_width(t)]
         n = self.new_signal(t)
         regs.append((mkref(n), t)); self.avail.append((mkref(n), t))
     nsteps = d(st.integers(o["min_comb"], o["max_steps"]))
@@ -431,6 +459,24 @@ class ClassBuilder:
       self.drive([(mkref(n), type_width(t), t)])
     return {"ports": self.ports, "wires": self.wires, "children": self.children,
             "conns": self.conns, "blocks": self.blocks, "uu": self.uu}
+
+
+def _flat(t):
+  return t[0] == "s" and all(ft[0] == "b" for _, ft in t[2])
+
+
+def _is_constant(e):
+  k = e[0]
+  if k in ("const", "lit"): return True
+  if k in ("sig", "tmp", "tmpsl", "lv", "bit", "slice_lv"): return False
+  if k == "bin": return _is_constant(e[2]) and _is_constant(e[3])
+  if k in ("shl", "shr"): return _is_constant(e[1]) and _is_constant(e[2])
+  if k == "cmp": return _is_constant(e[2]) and _is_constant(e[3])
+  if k in ("inv", "zext", "sext", "trunc"): return _is_constant(e[1])
+  if k == "red": return _is_constant(e[2])
+  if k == "concat": return all(_is_constant(x) for x in e[1])
+  if k == "ifexp": return _is_constant(e[1]) and _is_constant(e[2]) and _is_constant(e[3])
+  return False
 
 
 def build_variant(draw, name, ports, opts, pool, depth, rdwr=False, once=False):
